@@ -207,33 +207,42 @@ func c04Run(r *vk.Run, id string, c *c04Case) {
 
 	// ---- decode three times from the SAME buffer: slice, btree, slice again
 	decodeLeg := func(buf []byte, stage string) {
+		firstOK := false
 		for pass, coll := range []string{"slice", "btree", "slice"} {
 			sig := feat + ":decode"
-			if pass > 0 {
-				sig = feat + ":decode-again"
+			if pass > 0 && firstOK {
+				sig = feat + ":decode-again" // the first decode of these bytes was right, a later one is not
+			}
+			passOK := true
+			pfail := func(sg, msg string) {
+				passOK = false
+				fail(sg, msg)
 			}
 			if r.Guard(func() string { return sig + "-panic" }, id, wit, func() {
 				nb := vNewColl(coll)
 				err := nb.UnmarshalBinary(buf)
 				r.Eval(1)
 				if err != nil {
-					fail(sig, fmt.Sprintf("%s pass %d into %s: UnmarshalBinary of valid %s bytes (%d bytes) failed: %v", stage, pass, coll, c.Form, len(data), err))
+					pfail(sig, fmt.Sprintf("%s pass %d into %s: UnmarshalBinary of valid %s bytes (%d bytes) failed: %v", stage, pass, coll, c.Form, len(data), err))
 					return
 				}
 				r.Eval(2)
 				if got := c04Slice(nb, len(model)); !vk.EqualU64(got, model) {
-					fail(sig, fmt.Sprintf("%s pass %d into %s: decoded set: %s; got %s want %s", stage, pass, coll, vk.DiffU64(got, model), vk.Brief(got), vk.Brief(model)))
+					pfail(sig, fmt.Sprintf("%s pass %d into %s: decoded set: %s; got %s want %s", stage, pass, coll, vk.DiffU64(got, model), vk.Brief(got), vk.Brief(model)))
 				} else if got := nb.Count(); got != uint64(len(model)) {
-					fail(sig, fmt.Sprintf("%s pass %d into %s: decoded Count()=%d want %d", stage, pass, coll, got, len(model)))
+					pfail(sig, fmt.Sprintf("%s pass %d into %s: decoded Count()=%d want %d", stage, pass, coll, got, len(model)))
 				}
 				if !official {
 					r.Eval(1)
 					if nb.Flags != c.Flags {
-						fail(feat+":flags", fmt.Sprintf("decoded Flags=%#x want %#x", nb.Flags, c.Flags))
+						pfail(feat+":flags", fmt.Sprintf("decoded Flags=%#x want %#x", nb.Flags, c.Flags))
 					}
 				}
 			}) {
-				clean = false
+				clean, passOK = false, false
+			}
+			if pass == 0 {
+				firstOK = passOK
 			}
 			if official {
 				r.Eval(1)
@@ -279,13 +288,15 @@ func c04Run(r *vk.Run, id string, c *c04Case) {
 						return
 					}
 					r.Eval(2)
-					if changed != len(delta) {
-						fail(sig+"-changed", fmt.Sprintf("%s: ImportRoaringBits(%s) into %s target: changed=%d want %d", stage, mode, coll, changed, len(delta)))
-					}
 					if got := c04Slice(tgt, len(want)); !vk.EqualU64(got, want) {
-						fail(sig, fmt.Sprintf("%s: ImportRoaringBits(%s) into %s target: result %s; got %s want %s", stage, mode, coll, vk.DiffU64(got, want), vk.Brief(got), vk.Brief(want)))
+						fail(sig, fmt.Sprintf("%s: ImportRoaringBits(%s) into %s target: result %s; got %s want %s (changed=%d want %d)", stage, mode, coll, vk.DiffU64(got, want), vk.Brief(got), vk.Brief(want), changed, len(delta)))
+						return
 					} else if got := tgt.Count(); got != uint64(len(want)) {
 						fail(sig, fmt.Sprintf("%s: ImportRoaringBits(%s) into %s target: Count()=%d want %d", stage, mode, coll, got, len(want)))
+						return
+					}
+					if changed != len(delta) {
+						fail(sig+"-changed", fmt.Sprintf("%s: ImportRoaringBits(%s) into %s target: changed=%d want %d", stage, mode, coll, changed, len(delta)))
 					}
 					if c.RowSize != 0 {
 						r.Eval(1)
